@@ -55,21 +55,36 @@ func (propC17) Draw(rt *rapid.T, w *WorldDesc, mode string) *Plan {
 		p.SharedMsgs = rapid.Bool().Draw(rt, "sharedMsgs")
 		for i := 0; i < nOps; i++ {
 			md := methods[rapid.IntRange(0, len(methods)-1).Draw(rt, fmt.Sprintf("op%d.rpc", i))]
+			// headers: valid for all / one missing / one invalid
+			hmode := rapid.IntRange(0, 5).Draw(rt, fmt.Sprintf("op%d.hmode", i))
+			if i > 0 && rapid.IntRange(0, 3).Draw(rt, fmt.Sprintf("op%d.sibling", i)) == 0 {
+				// the same route as an earlier call, both with a header problem of their own:
+				// two rejections of one route in flight together
+				prev := p.Ops[rapid.IntRange(0, i-1).Draw(rt, fmt.Sprintf("op%d.siblingOf", i))]
+				for _, m := range methods {
+					if m.Key == prev.RPC {
+						md = m
+					}
+				}
+				hmode = 4 + i%2
+			}
 			rpc := w.RPC(md.Key)
 			op := &Op{ID: i, RPC: md.Key, Client: "go", Server: "go"}
 			op.ClientIdx = rapid.IntRange(0, nClients-1).Draw(rt, fmt.Sprintf("op%d.client", i))
 			op.Opts = append(op.Opts, Opt{Kind: "header", Key: "X-Marker", Value: fmt.Sprintf("op%d", i)})
-			// headers: valid for all / one missing / one invalid
-			hmode := rapid.IntRange(0, 5).Draw(rt, fmt.Sprintf("op%d.hmode", i))
 			if hmode >= 4 && len(rpc.Headers) > 0 {
 				op.Notes = append(op.Notes, "hdr=perturbed")
+			}
+			target := 0
+			if len(rpc.Headers) > 1 {
+				target = rapid.IntRange(0, len(rpc.Headers)-1).Draw(rt, fmt.Sprintf("op%d.htarget", i))
 			}
 			for hi, h := range rpc.Headers {
 				v := ValidHeaderValue(h, i+hi)
 				switch {
-				case hmode == 4 && hi == 0:
+				case hmode == 4 && hi == target:
 					continue // leave it to the client default (or missing)
-				case hmode == 5 && hi == 0:
+				case hmode == 5 && hi == target:
 					v = "\x01not valid"
 				}
 				kind := "header"
